@@ -545,8 +545,13 @@ class Interpolation(object):
                     )
                 num_iter += 1
                 yp = self.derivative(x)
+                # Every tenth step bisects the bracketing interval: linear
+                # interpolation alone can creep towards the root for ever
+                if num_iter % 10 == 0:
+                    x = (xl + xh) / 2.0
+                    y = self.__call__(x)
                 # If derivative is too small, switch to linear interpolation
-                if abs(yp) < 1e-3:
+                elif abs(yp) < 1e-3:
                     x = (xl * yh - xh * yl) / (yh - yl)
                     y = self.__call__(x)
                 else:
